@@ -30,7 +30,7 @@ for rec in sorted(os.listdir(conf)):
         summary=m.get("summary", ""),
         needs_to_manifest=m.get("needs_to_manifest", ""),
         files_touched=m.get("files_touched", []),
-        author="sub-agent (round 2: told to avoid the obvious edit in the obvious function) given only the property text and a scratch worktree of /repo (HEAD with the fix: commits)",
+        author="sub-agent (later round: told which kinds of edit earlier rounds had used and asked for other kinds) given only the property text and a scratch worktree of /repo (HEAD with the fix: commits)",
         confirmed=dict(
             how="scratch worktree of /repo HEAD: `git apply patch.diff`; `PYTHONPATH=<wt>/src /venv/bin/python demo.py` before and after; full suite `python -m pytest -q -p no:cacheprovider --timeout=900 tests` with the patch; worktree removed afterwards",
             patch_applies=True,
